@@ -525,7 +525,7 @@ func TestVerif_C28_Corrupt(t *testing.T) {
 		}
 		out.Emit(map[string]any{"id": c.ID, "sh": c.Sh, "nb": c.NB, "size": size,
 			"obs": map[string]any{"alive": alive, "panic": crash, "responses": resps}})
-		mb, _ := json.Marshal(map[string]any{"id": c.ID, "dir": cdir})
+		mb, _ := json.Marshal(map[string]any{"id": c.ID, "dir": cdir, "start": at(mid.StartMs)})
 		manifest.Write(append(mb, '\n'))
 		n++
 	})
